@@ -106,6 +106,8 @@ def c02_1(ctx):
         ctx.ob(R, "entry:%s" % ep.split("::")[-1], ok,
                "%s creates one ParseState (outside the loop) and runs every spend through process_single_spend" % ep.split("::")[-1],
                found={"ParseState::default": len(news), "process_single_spend": len(pss_calls)})
+        U.loop_no_skip(ctx, R, b, "no-skipped-spend:%s" % ep.split("::")[-1], pss_calls,
+                       "every element of the spend list reaches process_single_spend or aborts the run (no iteration is skipped)")
     adt = fb.adts.get(CC + "conditions::ParseState")
     if adt:
         pub = sorted(f["name"] for f in adt["variants"][0]["fields"] if f["pub"])
